@@ -324,6 +324,24 @@ func (x *Exec) builtin(s *State, b *ssa.Builtin, call *ssa.CallCommon, args []Va
 		st := call.Args[0].Type()
 		a := x.toTerm(s, args[0], st)
 		bt := x.toTerm(s, args[1], call.Args[1].Type())
+		// append(X[lo:hi], vs...): when hi+len(vs) <= len(X) the capacity certainly suffices and the elements
+		// X[hi:hi+len(vs)] are overwritten in place (the `append(buf[:0], ...)` idiom); otherwise whether the tail of
+		// X is overwritten depends on the capacity, which is not modelled: the tail becomes unknown.
+		if sl, ok := call.Args[0].(*ssa.Slice); ok && sl.High != nil {
+			if _, isSlice := sl.X.Type().Underlying().(*types.Slice); isSlice {
+				if o := x.sliceOrigin(s, sl.X); o != nil {
+					base := x.term(s, sl.X)
+					hi := x.term(s, sl.High)
+					n := smt.SeqLen(bt)
+					end := smt.Add(hi, n)
+					inPlace := smt.SeqConcat(smt.SeqExtract(base, smt.IntC(0), hi), bt, smt.SeqExtract(base, end, smt.Sub(smt.SeqLen(base), end)))
+					tail := smt.Fresh("aptail", base.Sort)
+					s.assume(smt.Eq(smt.SeqLen(tail), smt.Sub(smt.SeqLen(base), hi)))
+					unknown := smt.SeqConcat(smt.SeqExtract(base, smt.IntC(0), hi), tail)
+					x.writeBackSlice(s, sl.X, o, smt.Ite(smt.Le(end, smt.SeqLen(base)), inPlace, unknown))
+				}
+			}
+		}
 		return TermVal{smt.SeqConcat(a, bt)}, true
 	case "copy":
 		dst := x.toTerm(s, args[0], call.Args[0].Type())
